@@ -117,8 +117,11 @@ class NotNotMacro(Macro):
         self.limit = None
 
     def eval(self, args, prevs=None):
+        if len(args) != 2:
+            raise VeriTException("not_not", "clause must have two literals")
         neg_arg, pos_arg = args
-        if neg_arg.arg.arg.arg == pos_arg:
+        if neg_arg.is_not() and neg_arg.arg.is_not() and neg_arg.arg.arg.is_not() and \
+           neg_arg.arg.arg.arg == pos_arg:
             return Thm(Or(neg_arg, pos_arg))
         else:
             raise VeriTException("not_not", "unexpected goal: %s" % Or(*args))
